@@ -138,8 +138,9 @@ def image_drives(image, policy='physical', first_free=0):
     """Drive numbers (relative, assuming an empty configuration) of each surface index.
     Returns list of (drive, surface_idx or None for unformatted)."""
     ext = image['ext']
-    if ext in ('ssd', 'sdd'):
-        return [(0, 0)]
+    if ext in ('ssd', 'sdd', 'hfe', 'mfm'):
+        n = len(image['surfaces'])
+        return [(0, 0)] if n == 1 else ([(0, 0), (2, 1)] if policy == 'physical' else [(0, 0), (1, 1)])
     if ext in ('dsd', 'ddd'):
         return [(0, 0), (2, 1)] if policy == 'physical' else [(0, 0), (1, 1)]
     out = []
